@@ -173,6 +173,24 @@ def mutate(data: bytes, spec: list, other: bytes = b"") -> bytes:
         if i < 0:
             return data
         return data[:i] + struct.pack("<II", 0x1014, spec[1]) + data[i + 8:]
+    if op == "dupspan":                                # copy a span OVER a later offset (length preserved)
+        a, n, b = spec[1], spec[2], spec[3]
+        if len(data) < 2:
+            return data
+        a %= len(data)
+        span = data[a:a + n]
+        b = a + len(span) + (b % max(1, len(data) - a - len(span) + 1))
+        span = span[: max(0, len(data) - b)]
+        return data[:b] + span + data[b + len(span):]
+    if op == "oledup":                                 # the same inside ONE stream of an OLE2 file (shell untouched)
+        return ole_dup_span(data, spec[1], spec[2], spec[3], spec[4])
+    if op == "olepics":                                # identical pictures planted in a stream of an OLE2 file
+        return ole_plant_pictures(data, spec[1], spec[2], spec[3])
+    if op == "compress":                               # gz / bz2 / xz of the bytes (NOT a tar inside)
+        import bz2
+        import gzip
+        import lzma
+        return {"gz": lambda d: gzip.compress(d, mtime=0), "bz2": bz2.compress, "xz": lzma.compress}[spec[1]](data)
     if op == "himg":                                   # the hostile image itself (for the sniffers)
         return HOSTILE_IMAGES[spec[1]]
     if op == "zipimg":                                 # every raster media part of a ZIP container replaced
@@ -611,3 +629,124 @@ def patch_embedded_image(data: bytes, img: bytes, nth: int) -> bytes:
     at = hits[nth % len(hits)]
     img = img[: len(data) - at]
     return data[:at] + img + data[at + len(img):]
+
+
+# ------------------------------------------------------------------- OLE2 stream-level mutation (shell untouched)
+OLE_STREAMS = ["WordDocument", "Data", "1Table", "0Table", "Workbook", "Book", "PowerPoint Document", "Pictures"]
+
+
+def _ole_stream_map(data: bytes, name: str):
+    """file offsets of the sectors of a (regular, non-mini) stream, its size and the sector size; None if absent."""
+    try:
+        import olefile
+        ole = olefile.OleFileIO(io.BytesIO(data))
+        if not ole.exists(name):
+            return None
+        e = ole.direntries[ole._find(name)]
+        if e.size < ole.minisectorcutoff:
+            return None
+        ss, sect, offs = ole.sectorsize, e.isectStart, []
+        while sect not in (0xFFFFFFFE, 0xFFFFFFFF) and len(offs) <= (len(data) // ss) + 1:
+            offs.append((sect + 1) * ss)
+            if sect >= len(ole.fat):
+                break
+            sect = ole.fat[sect]
+        return offs, min(e.size, len(offs) * ss), ss
+    except Exception:
+        return None
+
+
+def _ole_read(data, m):
+    offs, size, ss = m
+    return b"".join(data[o:o + ss] for o in offs)[:size]
+
+
+def _ole_write(data, m, stream: bytes):
+    offs, size, ss = m
+    b = bytearray(data)
+    for k, o in enumerate(offs):
+        part = stream[k * ss:(k + 1) * ss]
+        if o + len(part) <= len(b):
+            b[o:o + len(part)] = part
+    return bytes(b)
+
+
+def _pick_stream(data, which):
+    names = [which] if which in OLE_STREAMS else OLE_STREAMS
+    best = None
+    for n in names:
+        m = _ole_stream_map(data, n)
+        if m and (best is None or m[1] > best[1][1]):
+            best = (n, m)
+        if m and which == "first":
+            return n, m
+    return best
+
+
+def ole_dup_span(data: bytes, which: str, a: int, n: int, gap: int) -> bytes:
+    """copy a span of a stream over a later offset of the SAME stream (gap 0 = adjacent): an embedded picture /
+    record then occurs twice, byte-identical; FAT, directory and all sizes stay as they are."""
+    pk = _pick_stream(data, which)
+    if not pk:
+        return data
+    _, m = pk
+    st = _ole_read(data, m)
+    if len(st) < 256:
+        return data
+    a %= len(st) - 128
+    span = st[a:a + n]
+    b = a + len(span) + gap
+    span = span[: max(0, len(st) - b)]
+    st2 = st[:b] + span + st[b + len(span):]
+    return _ole_write(data, m, st2)
+
+
+def _dib(w=8, h=8, bpp=24, seed=0, size_field=True):
+    row = ((bpp * w + 31) // 32) * 4
+    pix = bytes(((x * 37 + seed * 11 + 5) % 200) + 41 for x in range(row * h))     # never contains 28 00 00 00
+    table = b"".join(bytes((i, i, i, 0)) for i in range(1 << bpp)) if bpp <= 8 else b""
+    return struct.pack("<IiiHHIIiiII", 40, w, h, 1, bpp, 0, len(pix) if size_field else 0, 2835, 2835, 0, 0) + table + pix
+
+
+def picture_blocks(kind: str) -> bytes:
+    """the same picture two or three times: adjacent, separated, the last copy cut short."""
+    from .writers.images import png
+    pics = {"dib": _dib(), "dib8": _dib(6, 5, 8, 1), "dib0": _dib(9, 4, 24, 2, size_field=False), "png": png(5, 4, 3),
+            "jpeg": HOSTILE_IMAGES["j_valid"]}
+    shape, pic = kind.split(":")
+    p = pics[pic]
+    gap = b"\x20" * 37
+    if shape == "adjacent":
+        return p + p
+    if shape == "separated":
+        return p + gap + p
+    if shape == "triple":
+        return p + p + gap + p
+    if shape == "cut":                      # the second copy ends in the middle of its pixel data
+        return p + gap + p[: len(p) // 2]
+    if shape == "cutsame":                  # complete, complete, then a third copy cut short
+        return p + p + p[: 40 + 7]
+    if shape == "two":                      # two DIFFERENT pictures, each twice, interleaved
+        q = _dib(7, 7, 24, 9)
+        return p + q + p + q
+    raise ValueError(kind)
+
+
+PICTURE_KINDS = [f"{s_}:{p_}" for s_ in ("adjacent", "separated", "triple", "cut", "cutsame", "two")
+                 for p_ in ("dib", "dib8", "dib0", "png", "jpeg")]
+
+
+def ole_plant_pictures(data: bytes, which: str, kind: str, at_permille: int) -> bytes:
+    """overwrite a span of one stream (default: the largest, for a .doc the WordDocument stream) with a block of
+    identical pictures; the first 2 KiB of the stream (FIB / headers) are left alone."""
+    pk = _pick_stream(data, which)
+    if not pk:
+        return data
+    _, m = pk
+    st = _ole_read(data, m)
+    blk = picture_blocks(kind)
+    if len(st) < 2048 + len(blk) + 64:
+        return data
+    at = 2048 + (len(st) - 2048 - len(blk) - 32) * (at_permille % 1000) // 1000
+    st2 = st[:at] + blk + st[at + len(blk):]
+    return _ole_write(data, m, st2)
